@@ -136,6 +136,19 @@ static void huge_lengths(void)
 	}
 	if (p) munmap(p, L + 4096);
 	v_stat("variants_run_over_4GiB", n);
+	/* Adler-32 over 640 MiB of 0xFF in ONE call (every variant, the table-free base code included): the sums grow fastest here and the deferred
+	 * modulo reductions are at their limit.  The buffer is one 2 MiB block mapped 320 times; the expected value has a closed form. */
+	{ uint8_t *ff = NULL; size_t N = 640u << 20;
+	  for (int i = 0; i < NSYMS; i++) { long idx = 610000000l + i; if (!v_mine(idx) || !syms[i].ok || syms[i].kind != K_ADLER) continue;
+		if (!ff) { ff = v_alias_map(N, 0xff, NULL, 0); if (!ff) { v_set("huge_lengths", "adler 640 MiB skipped: aliased mapping refused"); break; } }
+		uint32_t a0 = 1 + (uint32_t) (i * 977 % 65000), b0 = (uint32_t) (i * 31337 % 65521); uint64_t seed = (uint64_t) b0 << 16 | a0;
+		unsigned __int128 nn = N; uint32_t ea = (uint32_t) ((a0 + (unsigned __int128) 255 * nn) % 65521), eb = (uint32_t) ((b0 + nn * a0 + (unsigned __int128) 255 * (nn * (nn + 1) / 2)) % 65521); uint64_t want = (uint64_t) eb << 16 | ea, got = 0;
+		v_setcase(idx, "sym=%s 640 MiB of 0xFF in one call, seed %08llx", syms[i].name, (unsigned long long) seed);
+		if (V_TRY(600)) { got = call(&syms[i], seed, ff, NULL, N); V_END; } else { fault(&syms[i]); continue; }
+		syms[i].calls++; v_count("adler_640MiB_of_ff", syms[i].name, 1);
+		if (got != want) { char key[200]; snprintf(key, sizeof key, "wrong-value:%s:640MiB-of-ff", syms[i].name); v_viol(key, "got %08llx, closed form gives %08llx", (unsigned long long) got, (unsigned long long) want); }
+	  }
+	  if (ff) munmap(ff, N + 4096); }
 }
 int main(int argc, char **argv)
 {
